@@ -150,6 +150,15 @@ fn gen_plan(rng: &mut Rng) -> Plan {
     let style = rng.below(7);
     let (order, oname) = arrival(rng, cs.len(), style);
     let (mut hist, hname) = if rng.chance(1, 5) { stutter_handshake(rng, client, t0) } else { (handshake(client, t0), "") };
+    // DATA overtaking the establishing chunk: dropped by the endpoint, it all arrives again later
+    if !cs.is_empty() && rng.chance(1, 6) {
+        let est = hist.pop().unwrap();
+        let mut tail = vec![est];
+        while matches!(hist.last(), Some(Input::CookieAck) | Some(Input::CookieEcho(_))) { tail.push(hist.pop().unwrap()); }
+        for _ in 0..rng.range(1, 3) { hist.push(Input::Data(cs[rng.below(cs.len() as u64) as usize].clone())); }
+        tail.reverse();
+        hist.extend(tail);
+    }
     let dup_setup = rng.chance(1, 3);
     for i in order {
         if dup_setup && rng.chance(1, 5) {
@@ -330,32 +339,20 @@ fn plan_term(p: &Plan, o: &Observed, spec: Option<(&[SChan], &[Sub], u32)>) -> S
     }
 }
 
-/// Open finding (class setup_replay_before_established): while the handshake is incomplete the
-/// endpoint already processes DATA, and a duplicated INIT-ACK / INIT then resets its cumulative
-/// TSN: DATA sent afterwards is never delivered although every datagram arrives.
+/// Former finding F11b / F27 (fixed by 165fa18), kept as regression: DATA overtakes the COOKIE-ACK
+/// (now dropped), a late duplicate INIT-ACK / INIT follows, COOKIE, the rest, the retransmissions.
 fn pre_established_plans() -> Vec<Plan> {
     let mut v = vec![];
-    let ch0 = vec![ChanCfg::negotiated(0, true)];
-    let sc0 = vec![SChan { id: 0, ordered: true, mps: 1200 }];
     let t0 = 5000u32;
     let w: Vec<Sub> = [b"a", b"b", b"c"].iter().map(|d| Sub { sid: 0, ppid: 53, data: d.to_vec() }).collect();
-    let cs = peer_chunks(&sc0, &w, t0, true);
-    // client role: COOKIE-ACK delayed, peer's DATA overtakes it, a late duplicate INIT-ACK follows
-    let hist = vec![Input::InitAck(t0, true), Input::Data(cs[0].clone()), Input::Data(cs[1].clone()), Input::InitAck(t0, true), Input::CookieAck,
-        Input::Data(cs[2].clone())];
-    v.push(Plan { kind: "known-finding", client: true, chans: ch0.clone(), sc: sc0.clone(), w: w.clone(), t0, hist, spec: true,
-        note: "late duplicate INIT-ACK before COOKIE-ACK, after DATA".into(), seq_prefix: None });
-    // the same replay, then 65 536 more ordered messages: when the SSN wraps, the stale copy of message 0
-    // (parked in the ordered stream's pending map by the replay) is delivered a second time and message
-    // 65 536 never: the delivered sequence is not a prefix (Proofs/SctpWrapWitness.v is this history)
-    {
-        let n = 65_537u32;
-        let w: Vec<Sub> = (0..n).map(|i| Sub { sid: 0, ppid: 53, data: seq_msg(i) }).collect();
-        let cs = peer_chunks(&sc0, &w, t0, true);
-        let mut hist = vec![Input::InitAck(t0, true), Input::Data(cs[0].clone()), Input::InitAck(t0, true), Input::Data(cs[0].clone()), Input::CookieAck];
-        for c in &cs[1..] { hist.push(Input::Data(c.clone())); }
-        v.push(Plan { kind: "known-finding", client: true, chans: ch0.clone(), sc: sc0.clone(), w, t0, hist, spec: false,
-            note: "INIT-ACK replay before COOKIE-ACK, then 65536 messages across the SSN wrap".into(), seq_prefix: Some((5, n as usize - 1, 1)) });
+    for (client, ordered) in [(true, true), (true, false), (false, true)] {
+        let cs = peer_chunks(&[SChan { id: 0, ordered, mps: 1200 }], &w, t0, true);
+        let ia = |t| if client { Input::InitAck(t, true) } else { Input::Init(t) };
+        let est = if client { Input::CookieAck } else { Input::CookieEcho(true) };
+        let hist = vec![ia(t0), Input::Data(cs[0].clone()), Input::Data(cs[1].clone()), ia(t0), est,
+            Input::Data(cs[2].clone()), Input::Data(cs[0].clone()), Input::Data(cs[1].clone())];
+        v.push(Plan { kind: "corpus", client, chans: vec![ChanCfg::negotiated(0, ordered)], sc: vec![SChan { id: 0, ordered, mps: 1200 }], w: w.clone(), t0, hist, spec: true,
+            note: "DATA before establishment (dropped), late duplicate INIT/INIT-ACK, establish, rest + retransmissions".into(), seq_prefix: None });
     }
     v
 }
@@ -380,7 +377,8 @@ fn oracle(p: &Plan, o: &Observed) -> Verdict {
         match i {
             Input::CookieEcho(true) | Input::CookieAck => connected = true,
             Input::Init(_) | Input::InitAck(_, _) => if !connected && data_seen { pre = true; },
-            Input::Data(d) => { data_seen = true; arrived.insert(d.tsn); }
+            // DATA that arrives before establishment is dropped unacknowledged (the peer retransmits it)
+            Input::Data(d) => { data_seen = true; if connected { arrived.insert(d.tsn); } }
             Input::Close(_) | Input::Teardown => closing = true,
             _ => {}
         }
@@ -420,13 +418,25 @@ fn oracle(p: &Plan, o: &Observed) -> Verdict {
     }
     // no receive-window leak: once every chunk has arrived (hence been delivered: nothing is queued)
     // the endpoint must advertise its whole configured window again
-    if !p.sc.is_empty() && !closing && !pre && fail.is_none() {
+    if !p.sc.is_empty() && !closing && fail.is_none() {
         let cs = peer_chunks(&p.sc, &p.w, p.t0, true);
         if cs.iter().all(|c| arrived.contains(&c.tsn)) {
             if let Some(w) = o.sack_rwnd {
                 if w != local_rwnd() {
                     fail = Some(format!("every chunk was delivered (nothing is buffered) but the last SACK advertises a_rwnd={} instead of the configured {}: receive window leaked", w, local_rwnd()));
                 }
+            }
+        }
+    }
+    // a repeated INIT (same tag, same initial TSN) before establishment must get the same answer:
+    // every INIT-ACK the endpoint sent carries one and the same tag and initial TSN
+    {
+        let inits: Vec<u32> = p.hist.iter().filter_map(|i| if let Input::Init(t) = i { Some(*t) } else { None }).collect();
+        if !p.client && inits.len() > 1 && inits.iter().all(|t| *t == inits[0]) {
+            let acks: Vec<(u32, u32)> = o.packets.iter().flat_map(|pk| pk.chunks.iter()).filter(|c| c.ty == 2 && c.value.len() >= 16)
+                .map(|c| (u32::from_be_bytes(c.value[0..4].try_into().unwrap()), u32::from_be_bytes(c.value[12..16].try_into().unwrap()))).collect();
+            if acks.iter().any(|a| *a != acks[0]) && fail.is_none() {
+                fail = Some(format!("the repeated INIT was answered with different parameters (tag, initial TSN): {:x?}", acks));
             }
         }
     }
@@ -542,6 +552,164 @@ async fn live_case(name: &'static str, faults: Vec<LiveFault>) -> Case {
         oracle_fail: fail, known: None, nontrivial: true, key: key_of(&format!("live{:?}", faults)), kind: "live-pair".into() }
 }
 
+
+// ------------------------------------------------------------------------------ live pair behind the datagram proxy
+/// Two real endpoints (DTLS + SCTP + channels) whose UDP datagrams pass through `vh::net::Proxy`.
+/// Once DTLS is up the proxy is armed: the first datagrams of each direction (SCTP handshake and
+/// DATA / SACK traffic, still encrypted) are dropped / duplicated / delayed (= reordered) according
+/// to a table drawn from the seed; afterwards the network is perfect. Oracle: what each side
+/// receives on an ordered channel is at every moment a prefix of what the other side submitted,
+/// byte-identical, (same multiset on an unordered one), and complete within 25 s after the last
+/// submission unless a close was reported.
+#[derive(Clone, Copy, Debug, PartialEq)]
+enum Act { Pass, Drop, Dup, Delay(u64) }
+
+async fn live_proxy_case(seed: u64, idx: usize) -> Case {
+    use rustrtc::transports::sctp::{DataChannel, DataChannelEvent, SctpTransport};
+    use std::sync::atomic::{AtomicBool, Ordering as AO};
+    use std::sync::Arc;
+    use std::time::Duration;
+    use vh::net::{dtls_pair_with, forward, wait_dtls_terminal, Dir};
+    let mut rng = Rng::new(seed ^ (0x11FE_0000 + idx as u64));
+    let horizon = 16usize;
+    let table = |rng: &mut Rng| -> Vec<Act> { (0..horizon).map(|_| match rng.below(100) { 0..=15 => Act::Drop, 16..=30 => Act::Dup, 31..=45 => Act::Delay(rng.range(20, 160)), _ => Act::Pass }).collect() };
+    let t_ab = table(&mut rng);
+    let t_ba = table(&mut rng);
+    let armed = Arc::new(AtomicBool::new(false));
+    let applied = Arc::new(parking_lot::Mutex::new(Vec::<String>::new()));
+    let policy: vh::net::Policy = {
+        let (armed, applied, t_ab, t_ba) = (armed.clone(), applied.clone(), t_ab.clone(), t_ba.clone());
+        let mut n = [0usize, 0usize];
+        Box::new(move |dir, _ord, pkt| {
+            if !armed.load(AO::SeqCst) { return forward(pkt); }
+            let (k, tab) = if dir == Dir::AtoB { (0, &t_ab) } else { (1, &t_ba) };
+            let i = n[k]; n[k] += 1;
+            let act = tab.get(i).copied().unwrap_or(Act::Pass);
+            if act != Act::Pass { applied.lock().push(format!("{:?}#{}:{:?}", dir, i, act)); }
+            match act {
+                Act::Pass => forward(pkt),
+                Act::Drop => vec![],
+                Act::Dup => vec![(Duration::ZERO, pkt.to_vec()), (Duration::from_millis(3), pkt.to_vec())],
+                Act::Delay(ms) => vec![(Duration::from_millis(ms), pkt.to_vec())],
+            }
+        })
+    };
+    let mut pair = dtls_pair_with(Some(policy), None, None).await;
+    let okc = matches!(wait_dtls_terminal(&pair.client.dtls, Duration::from_secs(10)).await, rustrtc::transports::dtls::DtlsState::Connected(..));
+    let oks = matches!(wait_dtls_terminal(&pair.server.dtls, Duration::from_secs(10)).await, rustrtc::transports::dtls::DtlsState::Connected(..));
+    if !(okc && oks) {
+        return Case { term: "-".into(), desc: json!({"kind": "live-proxy", "idx": idx, "note": "DTLS did not connect (no faults were armed)"}), oracle_fail: None, known: None,
+            nontrivial: false, key: key_of(&format!("lp{}{}", seed, idx)), kind: "live-proxy".into() };
+    }
+    armed.store(true, AO::SeqCst);
+    let mut cfg = rustrtc::RtcConfiguration::default();
+    cfg.sctp_rto_initial = Duration::from_millis(300);
+    cfg.sctp_rto_min = Duration::from_millis(200);
+    cfg.sctp_rto_max = Duration::from_secs(2);
+    // channels: an ordered one on stream 0, sometimes an unordered one on stream 1
+    let two = rng.chance(1, 2);
+    let chan_cfgs: Vec<ChanCfg> = if two { vec![ChanCfg::negotiated(0, true), ChanCfg::negotiated(1, false)] } else { vec![ChanCfg::negotiated(0, true)] };
+    let mut ends: Vec<(Arc<SctpTransport>, Vec<Arc<DataChannel>>)> = vec![];
+    let mut tasks = vec![];
+    let rxs = [pair.client.app_rx.take().unwrap(), pair.server.app_rx.take().unwrap()];
+    let dtls = [pair.client.dtls.clone(), pair.server.dtls.clone()];
+    for (side, mut app_rx) in rxs.into_iter().enumerate() {
+        let (tx, rx) = tokio::sync::mpsc::unbounded_channel::<bytes::Bytes>();
+        let dcs: Vec<Arc<DataChannel>> = chan_cfgs.iter().map(|c| Arc::new(DataChannel::new(c.id, c.to_config()))).collect();
+        let list = Arc::new(parking_lot::Mutex::new(dcs.iter().map(Arc::downgrade).collect::<Vec<_>>()));
+        let (sctp, run) = SctpTransport::new(dtls[side].clone(), rx, list, 5000, 5000, None, side == 0, &cfg);
+        tasks.push(tokio::spawn(run));
+        tasks.push(tokio::spawn(async move { while let Some(p) = app_rx.recv().await { let _ = tx.send(p); } }));
+        ends.push((sctp, dcs));
+    }
+    // workloads: per side, per channel
+    let mut sent: Vec<Vec<Vec<Vec<u8>>>> = vec![vec![vec![]; chan_cfgs.len()]; 2];
+    for side in 0..2 { for _ in 0..rng.range(2, 6) {
+        let ch = rng.below(chan_cfgs.len() as u64) as usize;
+        let n = *rng.pick(&[0usize, 1, 17, 1171, 1172, 1173, 2500, 5000]);
+        let mut m = ap_bytes(n, rng.next() as u8); if n > 0 { m[0] = side as u8; }
+        sent[side][ch].push(m);
+    } }
+    // receivers collect concurrently into shared logs
+    let logs: Vec<Vec<Arc<parking_lot::Mutex<Vec<Ev>>>>> = (0..2).map(|_| (0..chan_cfgs.len()).map(|_| Arc::new(parking_lot::Mutex::new(vec![]))).collect()).collect();
+    for side in 0..2 { for (ci, dc) in ends[side].1.iter().enumerate() {
+        let dc = dc.clone();
+        let log = logs[side][ci].clone();
+        tasks.push(tokio::spawn(async move {
+            loop {
+                match dc.recv().await {
+                    Some(DataChannelEvent::Open) => log.lock().push(Ev::Open),
+                    Some(DataChannelEvent::Message(m)) => log.lock().push(Ev::Msg(m.to_vec())),
+                    Some(DataChannelEvent::Close) => { log.lock().push(Ev::Close); break; }
+                    None => break,
+                }
+            }
+        }));
+    } }
+    let t_start = std::time::Instant::now();
+    // send once the association is up (state Open on channel 0 of that side)
+    let mut send_h = vec![];
+    for side in 0..2 {
+        let sctp = ends[side].0.clone();
+        let dc0 = ends[side].1[0].clone();
+        let msgs = sent[side].clone();
+        let ids: Vec<u16> = chan_cfgs.iter().map(|c| c.id).collect();
+        send_h.push(tokio::spawn(async move {
+            let t = std::time::Instant::now();
+            while dc0.state.load(AO::SeqCst) != 1 && t.elapsed() < Duration::from_secs(20) { tokio::time::sleep(Duration::from_millis(5)).await; }
+            let opened = dc0.state.load(AO::SeqCst) == 1;
+            if opened { for (ci, ms) in msgs.iter().enumerate() { for m in ms { let _ = sctp.send_data(ids[ci], m).await; } } }
+            opened
+        }));
+    }
+    let mut opened = vec![];
+    for h in send_h { opened.push(h.await.unwrap_or(false)); }
+    // completion: poll until everything expected is there (plus a grace period in which duplicates
+    // would still show up) or 25 s passed since the last submission
+    let nmsgs = |side: usize, ci: usize| logs[side][ci].lock().iter().filter(|e| matches!(e, Ev::Msg(_))).count();
+    let deadline = std::time::Instant::now() + Duration::from_secs(25);
+    let mut closed = false;
+    while std::time::Instant::now() < deadline {
+        tokio::time::sleep(Duration::from_millis(25)).await;
+        if ends.iter().any(|(s, _)| s.close_reason().is_some()) { closed = true; break; }
+        let done = (0..2).all(|side| (0..chan_cfgs.len()).all(|ci| nmsgs(side, ci) >= sent[1 - side][ci].len()));
+        if done { tokio::time::sleep(Duration::from_millis(300)).await; break; }
+    }
+    let waited = t_start.elapsed();
+    let got: Vec<Vec<Vec<Ev>>> = logs.iter().map(|s| s.iter().map(|l| l.lock().clone()).collect()).collect();
+    for (s, _) in &ends { s.close(); }
+    for t in tasks { t.abort(); }
+    // oracle
+    let mut fail = None;
+    for side in 0..2 { for (ci, cc) in chan_cfgs.iter().enumerate() {
+        let other = 1 - side;
+        let evs = &got[side][ci];
+        let msgs: Vec<&Vec<u8>> = evs.iter().filter_map(|e| if let Ev::Msg(m) = e { Some(m) } else { None }).collect();
+        let want = &sent[other][ci];
+        let opens = evs.iter().filter(|e| **e == Ev::Open).count();
+        if opens > 1 && fail.is_none() { fail = Some(format!("side {} channel {}: {} Open events", side, cc.id, opens)); }
+        if let Some(k) = evs.iter().position(|e| matches!(e, Ev::Msg(_))) { if evs.iter().position(|e| *e == Ev::Open).map(|o| o > k).unwrap_or(true) && fail.is_none() { fail = Some(format!("side {} channel {}: message before Open", side, cc.id)); } }
+        if cc.ordered {
+            let is_prefix = msgs.len() <= want.len() && msgs.iter().zip(want.iter()).all(|(a, b)| *a == b);
+            if !is_prefix && fail.is_none() { fail = Some(format!("side {} channel {}: received {} messages that are not a prefix of the {} submitted", side, cc.id, msgs.len(), want.len())); }
+        } else {
+            let mut pool: Vec<&Vec<u8>> = want.iter().collect();
+            for m in &msgs { match pool.iter().position(|w| w == m) { Some(k) => { pool.remove(k); } None => if fail.is_none() { fail = Some(format!("side {} channel {}: a message was duplicated or fabricated", side, cc.id)); } } }
+        }
+        let peer_closed = evs.contains(&Ev::Close) && false;
+        if msgs.len() != want.len() && !closed && !peer_closed && opened[other] && fail.is_none() {
+            fail = Some(format!("side {} channel {}: {} of {} messages after {:?} of fault-free network (faults: {:?}); nobody reported a close", side, cc.id, msgs.len(), want.len(), waited, applied.lock()));
+        }
+    } }
+    if !(opened[0] && opened[1]) && !closed && fail.is_none() { fail = Some(format!("association did not come up within 20 s (faults: {:?})", applied.lock())); }
+    let faults = applied.lock().clone();
+    Case { term: "-".into(), desc: json!({"kind": "live-proxy", "idx": idx, "channels": chan_cfgs.len(), "faults": faults,
+            "submitted": sent.iter().map(|s| s.iter().map(|c| c.iter().map(|m| m.len()).collect::<Vec<_>>()).collect::<Vec<_>>()).collect::<Vec<_>>(),
+            "received": got.iter().map(|s| s.iter().map(|c| c.iter().map(|e| e.short()).collect::<Vec<_>>()).collect::<Vec<_>>()).collect::<Vec<_>>(),
+            "seconds": waited.as_secs_f32(), "closed": closed}),
+        oracle_fail: fail, known: None, nontrivial: !faults.is_empty(), key: key_of(&format!("lp{}{}{:?}", seed, idx, faults)), kind: "live-proxy".into() }
+}
+
 #[tokio::main(flavor = "multi_thread", worker_threads = 8)]
 async fn main() {
     let args = parse_args();
@@ -571,7 +739,6 @@ async fn main() {
         let term = plan_term(&p, &o, spec);
         let hist_json: Vec<serde_json::Value> = p.hist.iter().take(40).map(|i| i.json()).collect();
         let (oracle_fail, known) = match v.fail {
-            Some(f) if v.pre_established_replay => { let _ = f; (None, Some("setup_replay_before_established".to_string())) }
             Some(f) => (Some(f), None),
             None => (None, None),
         };
@@ -600,6 +767,11 @@ async fn main() {
         ("INIT twice and INIT-ACK twice", vec![f("dup-init", true, 1, 2), f("dup-init-ack", false, 2, 2)]),
     ];
     for (name, faults) in live { let c = live_case(name, faults).await; *kinds.entry("live-pair".into()).or_default() += 1; out.push(c); }
+    // live pair behind the fault-injecting datagram proxy
+    let n_lp = if thorough { 240 } else { 36 };
+    let seed = args.seed;
+    let lp = par_map((0..n_lp).collect::<Vec<usize>>(), 12, move |i| live_proxy_case(seed, i)).await;
+    for c in lp { *kinds.entry("live-proxy".into()).or_default() += 1; out.push(c); }
     out.finish(json!({"generator": {"tier": args.tier, "seed": args.seed, "kinds": kinds, "arrival_orders": orders,
         "t0": "1/6 just below 2^32, 1/6 0..2, 1/6 around 2^31, else uniform u32",
         "sizes": "0,1,2,mps-1,mps,mps+1,2mps,2mps+1,3mps with mps 1..6 (1171/1172/1200 in 1/40 of cases); corpus 1171,1172,1173,2344,65536",
